@@ -282,6 +282,13 @@ class LoopInv:
         self.decreases = expr
         return self
 
+    def on_break(self, label, expr, prop=None):
+        """Checked whenever the loop is left through `break`; log queries see the events of that last iteration only."""
+        if not hasattr(self, "on_breaks"):
+            self.on_breaks = []
+        self.on_breaks.append((label, expr, prop))
+        return self
+
     def exits_under(self, label, env_expr, havoc=(), prop=None, tag=None):
         """Progress obligation of a polling loop, relative to a declared eventual guarantee of the other threads: in any state
         satisfying the invariant, once the shared state named in `havoc` has been changed arbitrarily by them and `env_expr`
